@@ -109,6 +109,10 @@ class ReaderModel(LinModel):
             st.fields['Iterator'] = res
             st.fields['InvalidSequencesCount'] = TOP
             return st
+        if name == 'operator bool' and obj is not None:
+            v = it.ev(fr, obj, depth)
+            if isinstance(v, Struct) and isinstance(v.fields.get('ErrorCode'), int):
+                return 1 if v.fields['ErrorCode'] == self.codes['Success'] else 0       # UtfEncodingResult: true iff Success
         if name == 'HandleEncodingError':
             for a in args:
                 it.ev(fr, a, depth)
@@ -229,8 +233,16 @@ def check(prog, rep, ids=None):
                             agg.setdefault(('R13.8', '%s|EndFile' % fshort), []).append((ok, 'EndFile with pending bytes or before eof'))
                         if ret == enum_res['DecodeError']:
                             model_codes = prog.enums[NS + 'UtfEncodingErrorCode']['items']
-                            ok = bool(decoded) and (decoded[-1] != model_codes['Success'] or policy.get('POLICY=Skip') is False)
-                            agg.setdefault(('R13.8', '%s|DecodeError' % fshort), []).append((ok, 'DecodeError although the decoder reported Success and nothing was refused'))
+                            code = decoded[-1] if decoded else None
+                            if code == model_codes['InvalidSequence']:
+                                ok, why = True, ''
+                            elif code == model_codes['UnexpectedEnd']:
+                                # a sequence cut by the chunk boundary continues in the next chunk: an error only when the stream has ended
+                                ok, why = eof1 == 1, 'DecodeError for a sequence that merely straddles the chunk boundary (more data follows): valid text is rejected'
+                            else:
+                                ok = code is not None and policy.get('POLICY=Skip') is False and eof1 == 1
+                                why = 'DecodeError although the decoder reported Success and nothing was refused'
+                            agg.setdefault(('R13.8', '%s|DecodeError' % fshort), []).append((ok, why))
             if not n_paths:
                 raise AnalysisBroken('encoded reader: no feasible path through %s' % f.id[:120])
             for key, oks in sorted(agg.items(), key=lambda kv: str(kv[0])):
@@ -242,7 +254,7 @@ def check(prog, rep, ids=None):
                         key = (key[0], strip_targs(key[1].split('|')[0]) + '|' + key[1].split('|', 1)[1])
                         msg = {'R13.7': 'ReadChunk returns Success at end of file while bytes remain in the window (%s): IsEnd() never becomes true - a stream '
                                         'whose byte count is not a multiple of the code unit makes every reader loop spin forever',
-                               'R13.8': '%s'}[key[0]] % sorted(set(bad))[0]
+                               'R13.8': '%s'}[key[0]] % (sorted(set(bad))[0] if key[0] == 'R13.7' else '; '.join(sorted(set(b for b in bad if b))))
                         rep.finding(ids[key[0]], key[1], f.loc(), '%s: %s' % (fshort, msg), func=f.id)
                     else:
                         rep.ok(ids[key[0]], key[1], sample={'function': fshort, 'paths': len(oks)})
